@@ -220,7 +220,8 @@ namespace raptor
                     residuals[iter] = r_norm;
                 }
 
-                while (r_norm > 1e-07 && iter < num_iterations)
+                // a residual that is not a number is not below the tolerance
+                while (!(r_norm <= 1e-07) && iter < num_iterations)
                 {
                     cycle(sol, rhs, 0);
 
